@@ -63,11 +63,14 @@ def _measure_job(job):
         if N >= 2:
             from qiskit import QuantumRegister
             prep2 = QuantumCircuit(QuantumRegister(1, "a"), QuantumRegister(N - 1, "b"))
-            circs2 = tomo.full_state_tomography_circuits(prep2, conn, [prep2.qubits[i] for i in mq])
-            for i, (c, c2) in enumerate(zip(circs, circs2)):
-                if ztab.gates_of(c, allow_measure=True) != ztab.gates_of(c2, allow_measure=True):
-                    problems.append("tomography circuit %d differs when the same qubits are given as Qubit objects of a two-register circuit" % i)
-                    break
+            try:
+                circs2 = tomo.full_state_tomography_circuits(prep2, conn, [prep2.qubits[i] for i in mq])
+                for i, (c, c2) in enumerate(zip(circs, circs2)):
+                    if ztab.gates_of(c, allow_measure=True) != ztab.gates_of(c2, allow_measure=True):
+                        problems.append("tomography circuit %d differs when the same qubits are given as Qubit objects of a two-register circuit" % i)
+                        break
+            except Exception as e:
+                problems.append("Qubit-object list on a two-register circuit raised %s" % type(e).__name__)
         ctx.prove("full_state_tomography_circuits: every two-qubit gate lies on a coupled pair after mapping through the list %s: %s" % (mq, problems[:2]), 0 if problems else 1,
                   info=dict(mq=mq, which="tomography"))
         problems = []
@@ -121,7 +124,8 @@ def run(tier, seed):
                   "part 4 also passes each list as Qubit objects of a two-register preparation circuit (same circuits expected)",
                   "part 4: measured-qubit lists: every ordered m-subset of an N-qubit register for m<=3 (N<=m+2) and m=4 (N<=5, thorough; quick: seeded lists); seeded non-ascending lists for m=5,6 (N<=m+2)"]
     ck.bounds += ["Fc0: EVERY class of EVERY configuration once (table graph, seeded concrete local-Clifford layer - thorough: one symbolic qubit for n<=5 -, seeded basis change, 2 sign vectors)"]
-    ck.outside += ["compressed circuits (C07)", "N > m+2"]
+    ck.bounds += ["compressed circuits: user-style programs (idle last qubit, SWAP-routed pairs) for every configuration with n>=3 (C07 covers compress in depth)"]
+    ck.outside += ["N > m+2"]
     cs = loader.native("connectivity_support")
     # ---- part 1
     ck.obligations += 1
@@ -181,6 +185,15 @@ def run(tier, seed):
         for c in r["cands"]:
             cands.append(("measure %s %d-%s N=%d list=%s" % (c["which"], c["m"], c["conn"], c["N"], c["mq"]), c, c["label"]))
     ck.candidates(cands[:20])
+    # ---- compressed circuits: user-style programs (idle qubits, SWAP routing) through compress_preparation_circuit
+    from . import c07
+    ccands = []
+    for job, r in harness.pmap(c07._routed_job, [(n, conn, seed * 31 + 7 * n + len(conn), tier) for (n, conn) in ADVERTISED if n >= 3]):
+        res = core.Result.from_json(r["res"])
+        ck.add("compress programs %d-%s" % job[:2], res, sample=0)
+        for c in r["cands"]:
+            ccands.append(("compress n=%d %s %s" % (c["n"], c["conn"], c["gates"]), c, "compress, %d-%s program %s: %s" % (c["n"], c["conn"], c["gates"], c["label"])))
+    ck.candidates(ccands[:10])
     _pipeprop.vacuity(ck, "prep", {"C02"})
     return ck.finish()
 
@@ -190,6 +203,9 @@ def replay(case):
     kind = case.get("kind")
     if kind == "pipeline":
         return _pipeprop.replay(case)
+    if kind == "program":
+        from . import c07
+        return c07.replay(case)
     from htstabilizer import connectivity_support as cs
     from .. import dense
     if kind == "graph":
